@@ -236,6 +236,7 @@ func c06RunCase(run *vfRun, base string, c c06Case) {
 		}
 	}()
 	nw.setSched(c.Sched)
+	nw.startLagMonitor()
 	x := &c06Ctx{run: run, c: c, net: nw, rng: vfNewRng(c.Seed ^ 0xc06)}
 	keyRng := vfNewRng(c.Seed ^ 0x6b6579)
 	newNode := func() *vfdNode {
@@ -294,6 +295,7 @@ func c06RunCase(run *vfRun, base string, c c06Case) {
 		}
 	}
 	nw.maxLatNs.Store(0)
+	nw.resetLag()
 	if err := leader.cmdExecute(); err != nil {
 		run.Inconclusive("execute refused: " + err.Error())
 		return
@@ -358,6 +360,7 @@ func c06RunCase(run *vfRun, base string, c c06Case) {
 			}
 		}
 		nw.maxLatNs.Store(0)
+		nw.resetLag()
 		if err := rleader.cmdExecute(); err != nil {
 			run.Inconclusive("reshare execute refused: " + err.Error())
 			return
@@ -458,6 +461,12 @@ func (x *c06Ctx) waitAndCheck(participants []*vfdNode, exp c06Expect, prev *key.
 	lat := time.Duration(x.net.maxLatNs.Load())
 	if lat > c06PhaseTimeout*3/4 {
 		run.Inconclusive(fmt.Sprintf("case %d epoch %d: a bundle took %v (phase timeout %v): synchrony assumption not met on this box", x.c.Index, x.epoch, lat, c06PhaseTimeout))
+		return nil, false
+	}
+	if lag := x.net.lag(); lag > 300*time.Millisecond && (nFailed > 0 || len(views[0].state.FinalGroup.Nodes) != len(participants)) {
+		// somebody failed or was evicted while timers on this box came back that late: kick-off and phase ends were
+		// not kept, which is outside the protocol's assumptions
+		run.Inconclusive(fmt.Sprintf("case %d epoch %d: eviction/failure while the box was not keeping time (timer lag %v)", x.c.Index, x.epoch, lag))
 		return nil, false
 	}
 	x.oracle(views, participants, exp, prev, nFailed)
